@@ -53,3 +53,7 @@ func sortKeys[K comparable](keys []K) {
 // without having to print their types.
 func ZeroKey[K comparable, V any](m map[K]V) (k K) { return }
 func ZeroVal[K comparable, V any](m map[K]V) (v V) { return }
+
+// ZeroElem: the zero value of a channel's element type (declares the loop
+// variable of a rewritten range-over-channel once, before the loop).
+func ZeroElem[C interface{ ~chan T | ~<-chan T }, T any](ch C) (v T) { return }
